@@ -4,7 +4,7 @@ from props import lexcommon
 
 LEVEL_NOTE = [
     "A1 str indexing / universal newlines of open(); A2 `re` semantics of the four numeric patterns (matchers are hand-specialised; pattern texts are re-generated and compared)",
-    "theorems C09.token_positions / tokens_ordered / diag_positions are about Model/Lexer.lean; the tie to lexer.py is the `lex` correspondence (exhaustive short strings + lexeme sequences) and the regenerated dictionaries",
+    "theorems C09.token_positions / tokens_ordered / diag_positions / column_one_iff_line_start are about Model/Lexer.lean; the tie to lexer.py is the `lex` correspondence (exhaustive short strings + lexeme sequences) and the regenerated dictionaries",
 ]
 PARTIAL = [
     "theorem C09.diag_positions: the first highlight (the printed position) of EVERY lexical diagnostic is the visual position of a character of the file, for every source text; that it is the *offending* character of each code (the escaped character, the first bad digit, the suffix, ...) is fixed by the model's definitions, tied to lexer.py by the `lex` correspondence and, for escapes, checked by the independent oracle (escape-diagnostic-position); positions of diagnostics produced by rules are token positions (token_positions) as far as the rules are ported",
